@@ -48,6 +48,9 @@ MUTANTS = [
     {"name": "c07-setter-skips-parse-for-no_output", "props": ["C07"], "edits": [{"file": "utype/schema.py", "old": "        context = self.__parser__.make_context(force_error=True)\n        value = field.parse_value(value, context=context)\n\n        if field.property:", "new": "        context = self.__parser__.make_context(force_error=True)\n        if field.no_output is not True:\n            value = field.parse_value(value, context=context)\n\n        if field.property:"}]},
     {"name": "c19-get_default-without-copy", "props": ["C19"], "edits": [{"file": "utype/parser/field.py", "old": "        return copy_value(default)", "new": "        return default"}]},
     {"name": "revert-e33b772-negative-utc-offset", "revert": "e33b772", "props": ["C14"]},
+    {"name": "revert-0430ca0-generator-mode-argument", "revert": "0430ca0", "props": ["C13"]},
+    {"name": "revert-ca7b569-output-required-defaults", "revert": "ca7b569", "props": ["C13"]},
+    {"name": "c13-additionalProperties-inverted", "props": ["C13"], "edits": [{"file": "utype/specs/json_schema/generator.py", "old": "                data.update(additionalProperties=addition)", "new": "                data.update(additionalProperties=not addition)"}]},
     # ---- C01 ------------------------------------------------------------------------------
     {"name": "c01-seq-first-element-unconverted", "props": ["C01"], "edits": [{"file": R, "old": """                try:
                     result.append(
